@@ -5,9 +5,11 @@
    Every modelled converter is [dconv image] for a per-ballot [image]; the theorems
    below hold for ANY image, hence for all of them at once, for every profile (a list
    of weighted ballots, any size, rational weights) and every output key. *)
-From Coq Require Import ZArith QArith Qabs List Bool Permutation.
+From Coq Require Import ZArith QArith Qabs List Bool Permutation Sorted.
 From VL Require Import Prelude.Sx Prelude.PyDict Prelude.GDict Model.Convert Proofs.Convert_proofs.
 From VL Require Import Model.Convert2 Proofs.Convert2_proofs Proofs.Round_proofs.
+From VL Require Import Proofs.ChainCands_proofs Proofs.RoundClass_proofs Proofs.ScoreSum_proofs Proofs.MergedSel_proofs.
+From VL Require Model.Cardinal Model.Validate Model.State Proofs.State_proofs Proofs.Eliminate_proofs Proofs.ScoreDict_proofs Proofs.ScoreOrder_proofs Proofs.MJ_proofs.
 Import ListNotations.
 Open Scope Q_scope.
 
@@ -294,6 +296,316 @@ Theorem C13_rounded_double_rounding_refuted :
   exists x, round_code 28 true RHalfDown 0 x = ROk 0 /\ round_q RHalfDown 0 x == 1 /\ (1 # 2) < x.
 Proof. exact round_code_double_rounding. Qed.
 
+(* ===================================================================================================================
+   Third part (wave 5): the converter clauses that had no theorem.
+   =================================================================================================================== *)
+
+(* ---- MergedSelections: "the candidates are ordered by their positions in the district-wide result lists".
+   [appearances el c] = in how many partial results c is listed, [ranksum el c] = the sum of its reversed ranks len(list) - 1 - index;
+   both are sums over the partial results (additive over the union of two sets of results).  The result is the list of the distinct
+   candidates in order of first appearance, sorted stably by (appearances, ranksum), larger first. *)
+Theorem C13_merged_sel_defining : forall el : list (list sx),
+  merged_selections el = map fst (isort (tagged el (firsts el))).
+Proof. exact merged_selections_defining. Qed.
+
+(* nobody lost, nobody doubled *)
+Theorem C13_merged_sel_members : forall (el : list (list sx)) (c : sx),
+  NoDup (merged_selections el) /\ (In c (merged_selections el) <-> exists l, In l el /\ In c l).
+Proof. intros el c. split; [apply merged_selections_NoDup|apply merged_selections_In]. Qed.
+
+(* more appearances first, then the larger sum of reversed ranks *)
+Theorem C13_merged_sel_sorted : forall el : list (list sx),
+  StronglySorted (fun a b => ms_before (MergedSel_proofs.tally el a) (MergedSel_proofs.tally el b)) (merged_selections el).
+Proof. exact merged_selections_sorted. Qed.
+
+(* candidates level on both counts keep the order of their first appearance *)
+Theorem C13_merged_sel_stable : forall (el : list (list sx)) (k : Z * Z),
+  filter (fun c => keqb (MergedSel_proofs.tally el c) k) (merged_selections el) =
+  filter (fun c => keqb (MergedSel_proofs.tally el c) k) (firsts el).
+Proof. exact merged_selections_stable. Qed.
+
+(* the two tallies are additive; one partial result without repetitions converts to itself *)
+Theorem C13_merged_sel_tallies_additive : forall (a b : list (list sx)) (c : sx),
+  (appearances (a ++ b) c = appearances a c + appearances b c)%Z /\ (ranksum (a ++ b) c = ranksum a c + ranksum b c)%Z.
+Proof. intros a b c. split; [apply appearances_app|apply ranksum_app]. Qed.
+
+Theorem C13_merged_sel_single : forall l : list sx, NoDup l -> merged_selections [l] = l.
+Proof. exact merged_selections_single. Qed.
+
+Example C13_merged_sel_example :
+  merged_selections [[A 1; A 2; A 3]; [A 4; A 2]; [A 5; A 1]] = [A 1; A 2; A 4; A 5; A 3].
+Proof. vm_compute. reflexivity. Qed.
+
+(* ---- Chain additivity in general.  [same_cands c a b] (Model/Convert2.v, a boolean): c is built from the fifteen accumulating converters,
+   InvertedSimpleVotes and Chains, and at every link the two sub-profiles have been converted to profiles over the same candidates -
+   the only thing positional scores, pairwise counts with unranked_at_bottom, ScoreToRankedVotes(unscored_value) and InvertedApprovalVotes
+   read off a profile besides its ballots. *)
+Theorem C13_chain_additive_same_cands : forall (c : ccode) (a b oa ob oab : fdict) (k : sx),
+  NoDup (keys a) -> NoDup (keys b) -> same_cands c a b = true ->
+  run_code c (VF a) = COk (VF oa) -> run_code c (VF b) = COk (VF ob) -> run_code c (VF (add_dict a b)) = COk (VF oab) ->
+  value oab k == value oa k + value ob k /\ (In k (keys oab) <-> In k (keys oa) \/ In k (keys ob)).
+Proof.
+  intros c a b oa ob oab k Ha Hb Hs Ra Rb Rab.
+  split; [exact (chain_additive_same_cands c a b oa ob oab k Ha Hb Hs Ra Rb Rab)|exact (chain_additive_keys c a b oa ob oab k Ha Hb Hs Ra Rb Rab)].
+Qed.
+
+(* the composition lemma behind it: links as accumulating folds ([stage]), dictionaries compared as Python compares them ([dsim]) *)
+Theorem C13_chain_composition_lemma : forall (ls : list link) (x a b : fdict), NoDup (keys a) -> NoDup (keys b) ->
+  dsim x (add_dict a b) -> same_cands_stages ls a b ->
+  dsim (stages ls x) (add_dict (stages ls a) (stages ls b)).
+Proof. exact stages_additive. Qed.
+
+(* one link: every accumulating converter on two profiles over the same candidates *)
+Theorem C13_link_additive_same_cands : forall (k : ckind) (a b oa ob oab : fdict) (key : sx),
+  NoDup (keys a) -> NoDup (keys b) -> kind_cands k (keys a) = kind_cands k (keys b) ->
+  run_kind k a = COk (VF oa) -> run_kind k b = COk (VF ob) -> run_kind k (add_dict a b) = COk (VF oab) ->
+  value oab key == value oa key + value ob key.
+Proof. exact kind_additive_same_cands. Qed.
+
+(* the hypothesis is met by a Chain through three profile-dependent links: score ballots -> rankings (unscored candidates last) -> Borda
+   counts -> inverted *)
+Example C13_chain_same_cands_example :
+  let c := KChain [KConv (KScoreRanked (Some 0)); KChain [KConv (KPositional (Borda 1)); KInvSimple]] in
+  let a := [(L [L [A 1; A 3]; L [A 2; A 1]], 2); (L [L [A 3; A 2]], 1)] in
+  let b := [(L [L [A 2; A 5]; L [A 3; A 1]], 1); (L [L [A 1; A 1]], 3)] in
+  NoDup (keys a) /\ NoDup (keys b) /\ same_cands c a b = true /\
+  run_code c (VF a) = COk (VF [(A 1, - (8)); (A 2, - (6)); (A 3, - (5))]) /\
+  run_code c (VF (add_dict a b)) = COk (VF [(A 1, - (18)); (A 2, - (15)); (A 3, - (13))]).
+Proof.
+  cbv zeta. split; [repeat constructor; simpl; intuition discriminate|]. split; [repeat constructor; simpl; intuition discriminate|].
+  split; [vm_compute; reflexivity|]. split; vm_compute; reflexivity.
+Qed.
+
+(* the side condition is needed: a Borda count depends on how many candidates the profile names *)
+Theorem C13_chain_same_cands_needed_refuted :
+  exists c a b oa ob oab k,
+    NoDup (keys a) /\ NoDup (keys b) /\ same_cands c a b = false /\
+    run_code c (VF a) = COk (VF oa) /\ run_code c (VF b) = COk (VF ob) /\ run_code c (VF (add_dict a b)) = COk (VF oab) /\
+    ~ value oab k == value oa k + value ob k.
+Proof. exact same_cands_needed. Qed.
+
+(* ---- ScoreToSimpleVotes (Model/Cardinal.v score_to_simple; plain configuration: no unscored_value, min_count <= 0, no truncation;
+   ballot counts >= 0).  [psum phi c votes] = sum over the ballots (b, n) of n * sum over the pairs (c, s) of b of phi(s). *)
+(* `sum`: the per-ballot image of a score ballot is its own (candidate, score) pairs *)
+Theorem C13_score_sum_value : forall (cf : Cardinal.score_cfg) (votes : Cardinal.sprofile) (c : C),
+  Cardinal.sc_fn cf = Cardinal.FSum -> plain_cfg cf = true -> counts_nonneg votes = true ->
+  exists out, Cardinal.score_to_simple cf votes = inl out /\
+    dget_or out c 0 == psum (fun s => s) c votes /\
+    NoDup (map fst out) /\ (In c (map fst out) <-> exists b n s, In (b, n) votes /\ In (c, s) b).
+Proof.
+  intros cf votes c Hf Hc Hv. exists (sum_out votes). split; [exact (score_sum_runs cf votes Hf Hc Hv)|].
+  split; [exact (sum_out_value votes c Hv)|]. rewrite sum_out_keys. split; [apply MJ_proofs.raw_scores_nodup|apply raw_scores_keys].
+Qed.
+
+Theorem C13_score_sum_additive : forall (cf : Cardinal.score_cfg) (a b : Cardinal.sprofile) oa ob oab (c : C),
+  Cardinal.sc_fn cf = Cardinal.FSum -> plain_cfg cf = true -> counts_nonneg a = true -> counts_nonneg b = true ->
+  Cardinal.score_to_simple cf a = inl oa -> Cardinal.score_to_simple cf b = inl ob -> Cardinal.score_to_simple cf (a ++ b) = inl oab ->
+  dget_or oab c 0 == dget_or oa c 0 + dget_or ob c 0.
+Proof.
+  intros cf a b oa ob oab c Hf Hc Ha Hb Ra Rb Rab.
+  assert (Hab : counts_nonneg (a ++ b) = true) by (unfold counts_nonneg in *; rewrite forallb_app, Ha, Hb; reflexivity).
+  rewrite (score_sum_runs cf a Hf Hc Ha) in Ra. rewrite (score_sum_runs cf b Hf Hc Hb) in Rb.
+  rewrite (score_sum_runs cf (a ++ b) Hf Hc Hab) in Rab.
+  injection Ra as <-. injection Rb as <-. injection Rab as <-.
+  rewrite !sum_out_value by assumption. apply psum_app.
+Qed.
+
+Theorem C13_score_sum_single : forall (cf : Cardinal.score_cfg) (b : sballot) (n : Z) out (c : C),
+  Cardinal.sc_fn cf = Cardinal.FSum -> plain_cfg cf = true -> (0 <= n)%Z ->
+  Cardinal.score_to_simple cf [(b, n)] = inl out ->
+  dget_or out c 0 == inject_Z n * bsum (fun s => s) c b.
+Proof.
+  intros cf b n out c Hf Hc Hn R.
+  assert (Hv : counts_nonneg [(b, n)] = true) by (unfold counts_nonneg; cbn [forallb snd]; apply Z.leb_le in Hn; rewrite Hn; reflexivity).
+  rewrite (score_sum_runs cf _ Hf Hc Hv) in R. injection R as <-. rewrite (sum_out_value _ c Hv). apply psum_single.
+Qed.
+
+(* `sum` with a constant unscored_value v (profile_ok: counts >= 0, no ballot scores a candidate twice): every ballot also gives v to each candidate
+   OF THE PROFILE it does not score - a profile-dependent image like the positional one: additive on every candidate both profiles score *)
+Theorem C13_score_sum_unscored_value : forall (cf : Cardinal.score_cfg) (v : Q) (votes : Cardinal.sprofile) (c : C),
+  const_cfg cf v -> ScoreDict_proofs.profile_ok votes -> In c (map fst (Cardinal.raw_scores votes)) ->
+  exists out, Cardinal.score_to_simple cf votes = inl out /\ map fst out = map fst (Cardinal.raw_scores votes) /\
+    dget_or out c 0 == psum (fun s => s) c votes + v * (ptotal votes - psum (fun _ => 1) c votes).
+Proof.
+  intros cf v votes c Hc Hv Hin. exists (const_out v votes). split; [exact (score_const_runs cf v votes Hc Hv)|].
+  split; [apply const_out_keys|exact (const_out_value v votes c Hv Hin)].
+Qed.
+
+Theorem C13_score_sum_unscored_additive : forall (cf : Cardinal.score_cfg) (v : Q) (a b : Cardinal.sprofile) oa ob oab (c : C),
+  const_cfg cf v -> ScoreDict_proofs.profile_ok a -> ScoreDict_proofs.profile_ok b ->
+  In c (map fst (Cardinal.raw_scores a)) -> In c (map fst (Cardinal.raw_scores b)) ->
+  Cardinal.score_to_simple cf a = inl oa -> Cardinal.score_to_simple cf b = inl ob -> Cardinal.score_to_simple cf (a ++ b) = inl oab ->
+  dget_or oab c 0 == dget_or oa c 0 + dget_or ob c 0.
+Proof. exact score_const_additive. Qed.
+
+Theorem C13_score_sum_unscored_same_cands_needed_refuted :
+  exists cf a b oa ob oab c,
+    const_cfg cf 1 /\ ScoreDict_proofs.profile_ok a /\ ScoreDict_proofs.profile_ok b /\
+    Cardinal.score_to_simple cf a = inl oa /\ Cardinal.score_to_simple cf b = inl ob /\ Cardinal.score_to_simple cf (a ++ b) = inl oab /\
+    ~ dget_or oab c 0 == dget_or oa c 0 + dget_or ob c 0.
+Proof. exact score_const_needs_same_cands. Qed.
+
+(* the tallies every aggregate is computed from are additive, whatever the aggregate *)
+Theorem C13_score_tallies_additive : forall (phi : Q -> Q) (c : C) (a b : Cardinal.sprofile), phi_ok phi ->
+  wq phi (ScoreOrder_proofs.look (Cardinal.raw_scores (a ++ b)) c) ==
+  wq phi (ScoreOrder_proofs.look (Cardinal.raw_scores a) c) + wq phi (ScoreOrder_proofs.look (Cardinal.raw_scores b) c).
+Proof. intros phi c a b Hp. rewrite !(wq_raw phi c _ Hp). apply psum_app. Qed.
+
+(* `mean`: the quotient of two additive tallies - the sum of the scores and the number of scores given to the candidate *)
+Theorem C13_score_mean_value : forall (cf : Cardinal.score_cfg) (votes : Cardinal.sprofile) out (c : C) (x : Q),
+  Cardinal.sc_fn cf = Cardinal.FMean -> plain_cfg cf = true -> counts_nonneg votes = true ->
+  Cardinal.score_to_simple cf votes = inl out -> In (c, x) out ->
+  0 < psum (fun _ => 1) c votes /\ x * psum (fun _ => 1) c votes == psum (fun s => s) c votes.
+Proof. exact score_mean_value. Qed.
+
+(* `median_low`: fewer than half of the scores lie below it, at least half do not exceed it (this fixes it up to ==) *)
+Theorem C13_score_median_value : forall (cf : Cardinal.score_cfg) (votes : Cardinal.sprofile) out (c : C) (m : Q),
+  Cardinal.sc_fn cf = Cardinal.FMedianLow -> plain_cfg cf = true -> counts_nonneg votes = true ->
+  Cardinal.score_to_simple cf votes = inl out -> In (c, m) out ->
+  2 * psum (below m) c votes < psum (fun _ => 1) c votes /\ psum (fun _ => 1) c votes <= 2 * psum (atmost m) c votes.
+Proof. exact score_median_value. Qed.
+
+(* ... and neither is additive: the clause "the union converts to the sum" of the property is about the converters that HAVE a per-ballot
+   image; for mean / median the additive objects are the tallies above *)
+Theorem C13_score_mean_additive_refuted :
+  exists a b oa ob oab c,
+    plain_cfg (cfg_of Cardinal.FMean) = true /\ counts_nonneg a = true /\ counts_nonneg b = true /\
+    Cardinal.score_to_simple (cfg_of Cardinal.FMean) a = inl oa /\ Cardinal.score_to_simple (cfg_of Cardinal.FMean) b = inl ob /\
+    Cardinal.score_to_simple (cfg_of Cardinal.FMean) (a ++ b) = inl oab /\
+    ~ dget_or oab c 0 == dget_or oa c 0 + dget_or ob c 0.
+Proof. exact score_mean_not_additive. Qed.
+
+Theorem C13_score_median_additive_refuted :
+  exists a b oa ob oab c,
+    plain_cfg (cfg_of Cardinal.FMedianLow) = true /\ counts_nonneg a = true /\ counts_nonneg b = true /\
+    Cardinal.score_to_simple (cfg_of Cardinal.FMedianLow) a = inl oa /\ Cardinal.score_to_simple (cfg_of Cardinal.FMedianLow) b = inl ob /\
+    Cardinal.score_to_simple (cfg_of Cardinal.FMedianLow) (a ++ b) = inl oab /\
+    ~ dget_or oab c 0 == dget_or oa c 0 + dget_or ob c 0.
+Proof. exact score_median_not_additive. Qed.
+
+Example C13_score_sum_example :
+  let votes := [([(1%positive, 3); (2%positive, 0)], 2%Z); ([(2%positive, 5)], 3%Z)] in
+  plain_cfg (cfg_of Cardinal.FSum) = true /\ counts_nonneg votes = true /\
+  Cardinal.score_to_simple (cfg_of Cardinal.FSum) votes = inl [(1%positive, 6); (2%positive, 15)] /\
+  psum (fun s => s) 2%positive votes == 15.
+Proof. vm_compute. repeat split; reflexivity. Qed.
+
+(* ---- InvalidVoteEliminator (Model/Validate.v eliminate): a filter.  Each ballot is judged on its own; the union converts to the union;
+   what passes is the sub-profile of the accepted ballots with their counts: the weight of the valid ballots is conserved *)
+Theorem C13_eliminator_single : forall (validate : Validate.pyobj -> Validate.vresult) (b : Validate.pyobj) (n : Z),
+  Validate.eliminate validate [(b, n)] =
+  match validate b with
+  | Validate.VOk => Validate.EOk [(b, n)] | Validate.VVoteError => Validate.EOk []
+  | Validate.VCandError => Validate.ECandError | Validate.VCrash => Validate.ECrash
+  end.
+Proof. exact Eliminate_proofs.eliminate_single. Qed.
+
+Theorem C13_eliminator_additive : forall (validate : Validate.pyobj -> Validate.vresult) (a b : list (Validate.pyobj * Z)),
+  (forall ka kb, Validate.eliminate validate a = Validate.EOk ka -> Validate.eliminate validate b = Validate.EOk kb ->
+     Validate.eliminate validate (a ++ b) = Validate.EOk (ka ++ kb)) /\
+  (forall k, Validate.eliminate validate (a ++ b) = Validate.EOk k ->
+     exists ka kb, Validate.eliminate validate a = Validate.EOk ka /\ Validate.eliminate validate b = Validate.EOk kb /\ k = ka ++ kb).
+Proof.
+  intros validate a b. split; [intros ka kb; apply Eliminate_proofs.eliminate_app|intros k; apply Eliminate_proofs.eliminate_app_inv].
+Qed.
+
+Theorem C13_eliminator_filter : forall (validate : Validate.pyobj -> Validate.vresult) (votes kept : list (Validate.pyobj * Z)),
+  Validate.eliminate validate votes = Validate.EOk kept ->
+  kept = filter (Eliminate_proofs.passes validate) votes /\
+  Eliminate_proofs.weight kept = Eliminate_proofs.weight (filter (Eliminate_proofs.passes validate) votes).
+Proof.
+  intros validate votes kept H. split; [exact (Eliminate_proofs.eliminate_filter validate votes kept H)|exact (Eliminate_proofs.eliminate_weight validate votes kept H)].
+Qed.
+
+Theorem C13_eliminator_valid_conserved : forall (validate : Validate.pyobj -> Validate.vresult) (votes : list (Validate.pyobj * Z)),
+  (forall bn, In bn votes -> validate (fst bn) = Validate.VOk) -> Validate.eliminate validate votes = Validate.EOk votes.
+Proof. exact Eliminate_proofs.eliminate_valid. Qed.
+
+(* ---- reuse: a converter object that converted anything before answers as a fresh one.  The only modelled converter that keeps state is
+   RankedToPositionalVotes with a Borda scorer (Model/State.v: the scorer remembers n_candidates and the score table): after ANY history of
+   calls on the shared scorer / converter - set_n_candidates, scores(), conversions of other profiles - a conversion is the stateless
+   model [run_kind (KPositional (Borda base))] all C13 theorems are about *)
+Theorem C13_reuse_positional : forall (base : Z) (cs : list State.borda_call) (votes : list (ranked * Q)),
+  State.out_after (State.borda_step base) State.borda_init cs (State.BConvert votes) =
+  State.BO_conv (oconv (img_positional (Borda base) (length (cands_ranked votes))) votes).
+Proof. intros base cs votes. unfold State.out_after. apply State_proofs.borda_convert_is_C13_model. Qed.
+
+Theorem C13_reuse_positional_run_kind : forall (base : Z) (cs : list State.borda_call) (d : fdict) (votes : list (ranked * Q)),
+  decode_all key_ranked d = Some votes ->
+  run_kind (KPositional (Borda base)) d =
+  match State.out_after (State.borda_step base) State.borda_init cs (State.BConvert votes) with
+  | State.BO_conv (Some o) => ok_f o
+  | State.BO_conv None => CErr E_VALUE
+  | _ => CUnmod
+  end.
+Proof.
+  intros base cs d votes H. rewrite C13_reuse_positional. cbn [run_kind]. unfold with_votes. rewrite H. reflexivity.
+Qed.
+
+(* every other modelled converter is a function of its configuration and the profile alone: as a state machine its state is the unit *)
+Theorem C13_reuse_stateless : forall (c : ccode) (cs : list vdata) (v : vdata),
+  State.out_after (fun (s : unit) (x : vdata) => (s, run_code c x)) tt cs v = run_code c v.
+Proof. reflexivity. Qed.
+
+Example C13_reuse_example :
+  State.out_after (State.borda_step 1) State.borda_init
+    [State.BConvert [([IP 1%positive; IP 2%positive; IP 3%positive; IP 4%positive], 1)]; State.BSetN 7; State.BScores 2]
+    (State.BConvert [([IP 1%positive; IP 2%positive], 3)])
+  = State.BO_conv (Some [(A 1, 6); (A 2, 3)]).
+Proof. vm_compute. reflexivity. Qed.
+
+(* ---- RoundedVotes beyond 28 significant digits: the exact class where the library's two roundings can go wrong.
+   [dr_class prec m d x] (Model/Convert2.v, a boolean): the quotient v = sig_round prec x differs from x AND a boundary of mode m - an exact half
+   (2 n + 1) / (2 10^d) for the three HALF modes, a grid point n / 10^d for the five directed modes - lies in the closed interval between
+   x and v.  Outside it the library's computation is the exact rounding (or InvalidOperation); C13_rounded_code_exact is the special case v == x *)
+Theorem C13_rounded_code_outside_class : forall (prec : nat) (via : bool) (m : rmode) (d : nat) (x : Q),
+  dr_class prec m d x = false \/ via = false ->
+  round_code prec via m d x = RInvalid \/ exists r, round_code prec via m d x = ROk r /\ r == round_q m d x.
+Proof. exact round_code_outside_class. Qed.
+
+Theorem C13_rounded_no_boundary_between : forall (m : rmode) (d : nat) (x v : Q),
+  crosses m d x v = false -> round_q m d x == round_q m d v.
+Proof. exact crosses_false_round. Qed.
+
+Theorem C13_rounded_exact_quotient_outside_class : forall (prec : nat) (m : rmode) (d : nat) (x : Q),
+  sig_round prec x == x -> dr_class prec m d x = false.
+Proof. exact exact_outside_class. Qed.
+
+(* inside the class the HALF modes do go wrong whenever the half lies strictly between the count and its quotient *)
+Theorem C13_rounded_half_between_refuted : forall (prec : nat) (m : rmode) (d : nat) (x : Q) (n : Z), half_mode m = true ->
+  (x * (2 * pow10 d) < inject_Z (2 * n + 1) /\ inject_Z (2 * n + 1) < sig_round prec x * (2 * pow10 d)) \/
+  (sig_round prec x * (2 * pow10 d) < inject_Z (2 * n + 1) /\ inject_Z (2 * n + 1) < x * (2 * pow10 d)) ->
+  ~ round_q m d (sig_round prec x) == round_q m d x.
+Proof. exact half_strictly_between_differs. Qed.
+
+(* for the three HALF modes the class EXACTLY: [dr_class_half] = a half strictly between the count and its quotient, or one of the two IS a
+   half and the tie rule of the mode sends it away from the other; the library returns the wrong neighbour on this class and nowhere else *)
+Theorem C13_rounded_half_class_exact : forall (prec : nat) (m : rmode) (d : nat) (x : Q), half_mode m = true ->
+  (dr_class_half prec m d x = true <-> ~ round_q m d (sig_round prec x) == round_q m d x).
+Proof. exact dr_class_half_exact. Qed.
+
+Theorem C13_rounded_code_half_exact : forall (prec : nat) (m : rmode) (d : nat) (x r : Q), half_mode m = true ->
+  round_code prec true m d x = ROk r -> (r == round_q m d x <-> dr_class_half prec m d x = false).
+Proof. exact round_code_half_exact. Qed.
+
+Example C13_rounded_half_class_example :
+  let x := (1#2) + (1 # 10 ^ 30) in
+  dr_class_half 28 RHalfDown 0 x = true /\ dr_class_half 28 RHalfUp 0 x = false /\ dr_class 28 RHalfUp 0 x = true /\
+  dr_class_half 28 RHalfEven 0 ((3#2) - (1 # 10 ^ 30)) = true /\ dr_class_half 28 RHalfEven 0 ((5#2) - (1 # 10 ^ 30)) = false.
+Proof. vm_compute. repeat split; reflexivity. Qed.
+
+(* inside and wrong (HALF_DOWN, UP), inside and right all the same (HALF_UP: the quotient IS the half, the tie rule decides), outside although
+   the quotient is inexact (1/3 to two decimals) *)
+Example C13_rounded_class_witnesses :
+  let x := (1#2) + (1 # 10 ^ 30) in
+  dr_class 28 RHalfDown 0 x = true /\ round_code 28 true RHalfDown 0 x = ROk 0 /\ round_q RHalfDown 0 x == 1 /\
+  dr_class 28 RHalfUp 0 x = true /\ round_code 28 true RHalfUp 0 x = ROk 1 /\ round_q RHalfUp 0 x == 1 /\
+  dr_class 28 RHalfEven 2 (1#3) = false /\ Qeq_bool (sig_round 28 (1#3)) (1#3) = false /\
+  dr_class 28 RUp 0 (1 + (1 # 10 ^ 30)) = true /\ round_code 28 true RUp 0 (1 + (1 # 10 ^ 30)) = ROk 1 /\
+  round_q RUp 0 (1 + (1 # 10 ^ 30)) == 2.
+Proof. exact dr_class_witnesses. Qed.
+
+
 Print Assumptions C13_additive.
 Print Assumptions C13_single_ballot.
 Print Assumptions C13_value.
@@ -342,3 +654,37 @@ Print Assumptions C13_rounded_compat.
 Print Assumptions C13_rounded_additive_refuted.
 Print Assumptions C13_rounded_code_exact.
 Print Assumptions C13_rounded_double_rounding_refuted.
+Print Assumptions C13_merged_sel_defining.
+Print Assumptions C13_merged_sel_members.
+Print Assumptions C13_merged_sel_sorted.
+Print Assumptions C13_merged_sel_stable.
+Print Assumptions C13_merged_sel_tallies_additive.
+Print Assumptions C13_merged_sel_single.
+Print Assumptions C13_chain_additive_same_cands.
+Print Assumptions C13_chain_composition_lemma.
+Print Assumptions C13_link_additive_same_cands.
+Print Assumptions C13_chain_same_cands_needed_refuted.
+Print Assumptions C13_score_sum_value.
+Print Assumptions C13_score_sum_additive.
+Print Assumptions C13_score_sum_single.
+Print Assumptions C13_score_tallies_additive.
+Print Assumptions C13_score_mean_value.
+Print Assumptions C13_score_median_value.
+Print Assumptions C13_score_mean_additive_refuted.
+Print Assumptions C13_score_median_additive_refuted.
+Print Assumptions C13_eliminator_single.
+Print Assumptions C13_eliminator_additive.
+Print Assumptions C13_eliminator_filter.
+Print Assumptions C13_eliminator_valid_conserved.
+Print Assumptions C13_reuse_positional.
+Print Assumptions C13_reuse_positional_run_kind.
+Print Assumptions C13_reuse_stateless.
+Print Assumptions C13_rounded_code_outside_class.
+Print Assumptions C13_rounded_no_boundary_between.
+Print Assumptions C13_rounded_exact_quotient_outside_class.
+Print Assumptions C13_rounded_half_between_refuted.
+Print Assumptions C13_rounded_half_class_exact.
+Print Assumptions C13_rounded_code_half_exact.
+Print Assumptions C13_score_sum_unscored_value.
+Print Assumptions C13_score_sum_unscored_additive.
+Print Assumptions C13_score_sum_unscored_same_cands_needed_refuted.
